@@ -335,9 +335,16 @@ def lin_point(ctx, rng, prob, which):
     small = any(t.small for t in prob.terms)
     amp = min(t.amp for t in prob.terms)
     if positive:
-        x = {"none": None, "zero": None, "unit": 1.6 + 0.3 * r, "large": 5.0 + 3.0 * r}[which]
-        if x is None:
-            which, x = "unit", 1.6 + 0.3 * r
+        # reciprocal terms need u >= 1 *at the quadrature points*.  Pitfall: for hierarchical / bubble / DG bases
+        # the DOFs are not nodal values, so "all DOFs in [1.3, 1.9]" does not bound u (ElementQuadP(3): u crossed
+        # zero, 1/u^2 ~ 1e4, the finite-difference oracle was off by 2 % while autodiff == hand-linearised).
+        which = which if which in ("unit", "large") else "unit"
+        x = 1.6 + 0.3 * r if which == "unit" else 5.0 + 3.0 * r
+        if min(float(np.min(np.asarray(f))) for f in as_tuple(basis.interpolate(x))) < 1.0:
+            one = basis.project(lambda X: 1.0 + 0.0 * X[0])
+            x = (1.6 if which == "unit" else 6.0) * one + 0.02 * r * np.abs(one).max()
+            if min(float(np.min(np.asarray(f))) for f in as_tuple(basis.interpolate(x))) < 1.0:
+                raise Skip("no-positive-linearisation-point")
     elif which == "none":
         x = None
     elif which == "zero":
@@ -638,7 +645,15 @@ def fam_directed(ctx, k):
         # the library, so reassembling with [c, i, j] is an oracle error, not a finding.
         loc = Jc.tolocal()
         ok = ok and loc.shape == (basis.nelems, basis.Nbfun, basis.Nbfun)
-        if ok and all(t.jac is not None for t in terms):
+        if ok:
+            R = np.zeros((N, N))
+            ed = np.asarray(basis.element_dofs)
+            for i in range(basis.Nbfun):
+                for j in range(basis.Nbfun):
+                    np.add.at(R, (ed[i], ed[j]), loc[:, j, i])
+            ok = np.abs(R - J.toarray()).max() <= 1e-12 * max(np.abs(R).max(), 1e-300)
+        # (the hand-linearised reference is contaminated by the 3x3 determinant defect, judged elsewhere)
+        if ok and all(t.jac is not None for t in terms) and not uses_det3(prob):
             ref = prob.bilinear(x).elemental(basis, **kw).tolocal()
             ok = ref.shape == loc.shape and np.abs(ref - loc).max() <= RT_HAND * max(np.abs(ref).max(), 1e-300)
     ctx.check("elemental-equals-assemble", ok, mech="elemental-differs", terms=names, **tag)
@@ -658,15 +673,15 @@ VECTOR_GROUP = ["vector"]
 COMPOSITE_GROUP = ["vector+scalar", "scalar+scalar", "hdiv+p0", "hcurl+scalar", "scalar+scalar+scalar"]
 
 FAMILIES = [
-    Family("nl-scalar", fam_residual(SCALAR_GROUP, "scalar"), quick=14, thorough=420, budget={"quick": 40, "thorough": 500}),
-    Family("nl-vector", fam_residual(VECTOR_GROUP, "vector"), quick=9, thorough=288, budget={"quick": 40, "thorough": 500}),
-    Family("nl-composite", fam_residual(COMPOSITE_GROUP, "composite"), quick=10, thorough=320,
+    Family("nl-scalar", fam_residual(SCALAR_GROUP, "scalar"), quick=14, thorough=336, budget={"quick": 40, "thorough": 500}),
+    Family("nl-vector", fam_residual(VECTOR_GROUP, "vector"), quick=9, thorough=216, budget={"quick": 40, "thorough": 500}),
+    Family("nl-composite", fam_residual(COMPOSITE_GROUP, "composite"), quick=10, thorough=240,
            budget={"quick": 40, "thorough": 500}),
     Family("nl-hess", fam_residual(["hess"], "hess"), quick=2, thorough=48, budget={"quick": 20, "thorough": 400}),
-    Family("nl-energy", fam_energy, quick=8, thorough=256, budget={"quick": 30, "thorough": 500}),
-    Family("nl-facet", fam_facet, quick=6, thorough=192, budget={"quick": 20, "thorough": 400}),
-    Family("nl-linear", fam_linear, quick=8, thorough=256, budget={"quick": 20, "thorough": 400}),
-    Family("nl-directed", fam_directed, quick=4, thorough=128, budget={"quick": 15, "thorough": 300}),
+    Family("nl-energy", fam_energy, quick=8, thorough=192, budget={"quick": 30, "thorough": 500}),
+    Family("nl-facet", fam_facet, quick=6, thorough=144, budget={"quick": 20, "thorough": 400}),
+    Family("nl-linear", fam_linear, quick=8, thorough=192, budget={"quick": 20, "thorough": 400}),
+    Family("nl-directed", fam_directed, quick=4, thorough=96, budget={"quick": 15, "thorough": 300}),
     Family("helpers-np", fam_helpers_np, quick=24, thorough=960, budget={"quick": 15, "thorough": 200}),
     Family("helpers-jax", fam_helpers_jax, quick=24, thorough=960, budget={"quick": 25, "thorough": 300}),
     Family("helpers-fields", fam_helpers_fields, quick=12, thorough=384, budget={"quick": 15, "thorough": 200}),
